@@ -224,7 +224,53 @@ def rp3(ctx):
         ctx.missing('realign', 'no re-alignment call in the AppendRecords replay arm')
 
 
-@rule('RO1', ['C01'], floor=1, template='must-call')
+@rule('RP4', ['C12', 'C08'], floor=1, template='error-not-dropped')
+def rp4(ctx):
+    """Replay applies a batch all-or-nothing: when one record of an AppendRecords entry cannot be applied to the
+    queue (position in the past, queue missing) the open fails; the record is never skipped while the rest of the
+    batch goes in (that would expose a batch with a hole)."""
+    from rules_open import replay_sites
+    from rules_log import replay_arms
+    from rules_misc import expand_arm_sites
+    from core import result_edges
+    rs = replay_sites(ctx)
+    if not rs:
+        ctx.missing('replay', 'no replay loop')
+        return
+    b, cs0 = rs[0]
+    arms = replay_arms(ctx, b, cs0)
+    if 'AppendRecords' not in arms:
+        ctx.missing('arm', 'no AppendRecords replay arm')
+        return
+    (edge, region) = arms['AppendRecords']
+    n = 0
+    for (host, cs, _res) in expand_arm_sites(ctx, b, region):
+        dl = cs.dest_local()
+        if cs.node is None or dl is None or not host.local_ty(dl).endswith('error::AppendError>') or not ctx.E.call_may(cs, 'MEM'):
+            continue
+        n += 1
+        re_ = result_edges(host, dl)
+        bad = None
+        if not re_['err'] and not (dl == 0):
+            # result handed on as a whole (`?` of a wrapper): fine when it is the host's own return value
+            if not any(e['kind'] in ('err_prop', 'forward') and (e.get('call') is cs or cs in e.get('calls', ())) for e in host.exits()):
+                bad = 'its result is not inspected'
+        for ed in re_['err']:
+            r_ = host.reach([ed[1]])
+            if cs.point in r_:
+                bad = 'the loop goes on with the next record of the batch'
+            for e in host.exits():
+                if e['point'] in r_ and e['kind'] in ('ok', 'some', 'none', 'value'):
+                    bad = 'the failure arm reaches a successful return (%s)' % host.loc(e['point'])
+            if host is b and cs0.point in r_:
+                bad = 'the replay loop goes on with the next entry'
+        ctx.check(bad is None, 'append-arm:%s' % cs.path.split('::')[-1], where(host, cs.point), 'a record that cannot be applied fails the open',
+                  'during replay a record of a batch that cannot be applied is skipped (%s): the batch would be recovered with a hole' % bad)
+    if n == 0:
+        ctx.missing('apply', 'no fallible in-memory append in the AppendRecords replay arm')
+
+
+@rule('RO1', ['C01', 'C11'], floor=1, template='must-call')
 def ro1(ctx):
     """The rolling reader is positioned on a block that was actually read from the first file."""
     n = 0
@@ -388,3 +434,32 @@ def ft1(ctx):
                       'a FileTracker is built without the list of file numbers having been found non-empty: an empty tracker panics in first() and makes open start a fresh log over existing WAL files')
     if n == 0:
         ctx.missing('tracker-constructions', 'no FileTracker construction found')
+
+
+@rule('FT2', ['C17', 'C01', 'C02'], floor=1, template='no-arithmetic')
+def ft2(ctx):
+    """The file after `curr` is the smallest TRACKED number above it, whatever the gap: the successor lookup of
+    the tracker does no arithmetic on the current number (a `curr + 1` lookup stops the reader at the first
+    gap and leaves valid WAL files unread, then collides with them at roll-over)."""
+    n = 0
+    FN = 'rolling::file_number::FileNumber'
+    for b in ctx.f.bodies.values():
+        if b.generic_dup() or b.is_test or b.is_closure or not b.path.startswith('rolling::file_number::FileTracker::'):
+            continue
+        if b.ret_ty != 'std::option::Option<%s>' % FN or b.arg_count != 2 or b.local_ty(1) != '&rolling::file_number::FileTracker' or b.local_ty(2) != '&' + FN:
+            continue
+        n += 1
+        fl = flow_of(b)
+        t = fl.forward(set(fl.local_sources(2)))
+        ar = []
+        for bi, blk in enumerate(b.blocks):
+            if not b.live[bi]:
+                continue
+            for st in blk['stmts']:
+                if st['k'] == 'assign' and st['rv']['k'] == 'binop' and st['rv']['op'] not in ('Eq', 'Ne', 'Lt', 'Le', 'Gt', 'Ge') and (fl.op_tainted(st['rv']['a'], t) or fl.op_tainted(st['rv']['b'], t)):
+                    ar.append(st['rv']['op'])
+        ordered = any(re.search(r'BTreeSet::<.*>::(range|iter|split_off|upper_bound|lower_bound)', c.name) for c in b.calls)
+        ctx.check(not ar and ordered, '%s:successor' % b.path, b.span, 'successor = ordered lookup above the current number, no arithmetic on it',
+                  'the successor of a WAL file is computed from its number (%s) instead of looked up in the ordered set of tracked files: gaps in the numbering (allowed) would stop recovery early' % (sorted(set(ar)) or 'no ordered lookup'))
+    if n == 0:
+        ctx.missing('successor', 'no FileTracker fn(&self, &FileNumber) -> Option<FileNumber> found')
